@@ -37,7 +37,7 @@ namespace {
 enum { TAB_BITS = 19, TAB_N = 1 << TAB_BITS };
 struct Ent { const void* p; size_t size; uint32_t kind; };   // kind 1 = libc, 2 = hook; p==(void*)1 tombstone
 Ent* tab = nullptr;
-uint64_t fault_k = 0; bool fault_from = false; bool fault_fired = false; uint64_t fault_base = 0;
+uint64_t fault_k = 0, fault_k2 = 0; bool fault_from = false; bool fault_fired = false; uint64_t fault_base = 0;
 const uint64_t HK_MAGIC = 0xC15A11C0FFEE1234ull;
 
 inline size_t hp(const void* p) { uint64_t x = (uint64_t)p; x ^= x >> 17; x *= 0x9E3779B97F4A7C15ull; return (size_t)(x >> (64 - TAB_BITS)); }
@@ -67,7 +67,7 @@ bool want_fail() {
     L.requests++;
     if (!fault_k) return false;
     uint64_t idx = L.requests - fault_base;
-    if (idx == fault_k || (fault_from && idx > fault_k)) { fault_fired = true; return true; }
+    if (idx == fault_k || (fault_k2 && idx == fault_k2) || (fault_from && idx > fault_k)) { fault_fired = true; return true; }
     return false;
 }
 } // namespace
@@ -78,7 +78,8 @@ void ledger_error(const char* what) {
 }
 void ledger_reset_counters() { long live = L.live; memset(&L, 0, sizeof L); L.live = live; fault_k = 0; fault_fired = false; fault_base = 0; }
 long ledger_live() { return L.live; }
-void ledger_arm_fault(uint64_t k, bool from) { fault_k = k; fault_from = from; fault_fired = false; fault_base = L.requests; }
+void ledger_arm_fault(uint64_t k, bool from) { fault_k = k; fault_k2 = 0; fault_from = from; fault_fired = false; fault_base = L.requests; }
+void ledger_arm_fault2(uint64_t k1, uint64_t k2) { fault_k = k1; fault_k2 = k2; fault_from = false; fault_fired = false; fault_base = L.requests; }
 bool ledger_fault_fired() { return fault_fired; }
 bool ledger_is_live(const void* p) { return p && tab_find(p) != nullptr; }
 size_t ledger_block_size(const void* p) { Ent* e = tab_find(p); return e ? e->size : 0; }
